@@ -993,6 +993,36 @@ def rule_extra_props(ctx):
               line=tests[0].lineno if tests else fi.node.lineno, function=fi.qualname,
               expected="if custom_kwargs and not allow_custom: raise ExtraPropertiesError",
               found=[short(t.test) for t in tests])
+    if tests and ok:
+        # the ESCAPE: an assignment that empties the tested set whatever the keyword arguments are (the claim of an unregistered
+        # toplevel-property extension: "all extras are extension properties").  The claim sits in the `extensions` property; on a
+        # type that HAS no `extensions` property -- external references, kill chain phases, granular markings, marking payloads,
+        # predefined extensions, bundles -- the claim is itself an unknown property and nothing can be extended, so the escape is
+        # conditioned on `extensions` being a defined property of the object.
+        nm = [x for x in conjuncts(tests[0].test) if isinstance(x, ast.Name)][0].id
+        fl_ = flow_of(fi)
+        esc = [a_ for a_ in body_walk(fi.node) if isinstance(a_, ast.Assign) and norm(a_.targets[0]) == nm
+               and fi.kwarg not in names_in(a_.value)]
+        for k_, a_ in enumerate(esc, 1):
+            flags = {n_ for t, pol, _ in guard_chain(a_) for n_ in names_in(t)} - {"self"}
+            controlled = [a_] + [b_ for b_ in body_walk(fi.node) if isinstance(b_, ast.Assign) and norm(b_.targets[0]) in flags]
+            conditioned = False
+            for b_ in controlled:
+                for t, pol, _ in guard_chain(b_):
+                    consts = {c_.value for c_ in ast.walk(t) if isinstance(c_, ast.Constant)}
+                    attrs = {c_.attr for c_ in ast.walk(t) if isinstance(c_, ast.Attribute)}
+                    if "extensions" in consts and "_properties" in attrs:
+                        conditioned = True
+            run.check(conditioned, R, key(rel, fi.qualname, "escape-needs-an-extension-point#%d" % k_),
+                      "the claim of an unregistered toplevel-property extension switches the refusal of unknown properties off on "
+                      "EVERY type, also on those that define no `extensions` property: with customisation disallowed, "
+                      "{'source_name': 'a', 'foo': 'bar', 'extensions': {'x': {'extension_type': 'toplevel-property-extension'}}} is "
+                      "accepted as an external reference (kill chain phase, granular marking, statement marking, ntfs-ext, bundle ...) "
+                      "-- two unknown properties, one of which vouches for the other", file=rel, line=a_.lineno, function=fi.qualname,
+                      expected="the escape only where 'extensions' is in self._properties (or is added by a registered extension)",
+                      found="%s under %s" % (short(a_), [norm(t) for t, pol, _ in guard_chain(a_)]))
+        if not esc:
+            run.info(R, key(rel, fi.qualname, "escape-needs-an-extension-point"), "no escape assignment in the constructor any more")
     if tests:
         # before any cleaning
         g = cfg_of(fi)
